@@ -259,6 +259,40 @@ MUTANTS = [
      "    @track_production\n    def p_grouped_expression(self, p):", "    def p_grouped_expression(self, p):"),
     ('C13', 'sl-comment-line-not-counted', 'bridgepoint/oal.py',
      "        r'\\/\\/.*\\n'\n        t.lexer.lineno += t.value.count('\\n')", "        r'\\/\\/.*\\n'"),
+    ('C04', 'lt-le-swapped', 'bridgepoint/interpret.py',
+     "            '<':   lambda lhs, rhs: (lhs < rhs),\n            '<=':  lambda lhs, rhs: (lhs <= rhs),",
+     "            '<':   lambda lhs, rhs: (lhs <= rhs),\n            '<=':  lambda lhs, rhs: (lhs < rhs),"),
+    ('C04', 'break-as-continue-in-while', 'bridgepoint/interpret.py',
+     "            except ContinueException:\n                continue\n            except BreakException:\n                break\n    \n    def accept_AssignmentNode",
+     "            except ContinueException:\n                continue\n            except BreakException:\n                continue\n    \n    def accept_AssignmentNode"),
+    ('C04', 'where-selected-bound-late', 'bridgepoint/interpret.py',
+     "            self.symtab.install_symbol('selected', selected)\n            value = self.accept(node.where_clause)\n            self.symtab.leave_block()\n            return value.fget()\n        \n        if node.cardinality",
+     "            value = self.accept(node.where_clause)\n            self.symtab.install_symbol('selected', selected)\n            self.symtab.leave_block()\n            return value.fget()\n        \n        if node.cardinality"),
+    ('C04', 'if-always-runs-else', 'bridgepoint/interpret.py',
+     "        elif not self.accept(node.elif_list):\n            self.accept(node.else_clause)",
+     "        elif not self.accept(node.elif_list):\n            self.accept(node.else_clause)\n        else:\n            self.accept(node.else_clause)"),
+    ('C04', 'cardinality-of-instance-zero', 'xtuml/meta.py',
+     "    if isinstance(instance_or_set, Class):\n        return 1", "    if isinstance(instance_or_set, Class):\n        return 0"),
+    ('C04', 'foreach-iterates-live-set', 'bridgepoint/interpret.py',
+     "        for handle in set_handle:\n            self.symtab.install_symbol(node.instance_variable_name, handle)",
+     "        for handle in list(set_handle)[::-1]:\n            self.symtab.install_symbol(node.instance_variable_name, handle)"),
+    ('C04', 'relate-using-second-link-skipped', 'bridgepoint/interpret.py',
+     "        xtuml.relate(from_inst, using_inst, node.rel_id, node.phrase.replace(\"'\", ''))\n        xtuml.relate(using_inst, to_inst, node.rel_id, node.phrase.replace(\"'\", ''))",
+     "        xtuml.relate(from_inst, using_inst, node.rel_id, node.phrase.replace(\"'\", ''))"),
+    ('C04', 'inner-block-variables-leak', 'bridgepoint/interpret.py',
+     "        block = self.scope_head.pop()\n        del block", "        block = self.scope_head.pop()\n        self.scope_head[-1].update(block) if self.scope_head else None"),
+    ('C04', 'string-literal-keeps-quote', 'bridgepoint/interpret.py',
+     "        value = node.value[1:-1]\n        return property(lambda: value)", "        value = node.value[1:]\n        return property(lambda: value)"),
+    ('C04', 'unary-minus-dropped', 'bridgepoint/interpret.py',
+     "            '-':           lambda value: -value,", "            '-':           lambda value: value,"),
+    ('C04', 'select-any-where-returns-last', 'bridgepoint/interpret.py',
+     "            handle = self.domain.select_any(node.key_letter, where)\n        \n        self.symtab.install_symbol(node.variable_name, handle)\n            \n    def accept_SelectRelatedNode",
+     "            handle = self.domain.select_many(node.key_letter, where).last\n        \n        self.symtab.install_symbol(node.variable_name, handle)\n            \n    def accept_SelectRelatedNode"),
+    ('C04', 'control-stop-ignored', 'bridgepoint/interpret.py',
+     "    def accept_ControlNode(self, node):\n        raise StopException()", "    def accept_ControlNode(self, node):\n        pass"),
+    ('C04', 'bare-return-crash-again', 'bridgepoint/interpret.py',
+     "        if node.expression is not None:\n            value = self.accept(node.expression)\n            self.return_value = value.fget()",
+     "        if True:\n            value = self.accept(node.expression)\n            self.return_value = value.fget()"),
 ]
 
 
